@@ -167,14 +167,24 @@ CHECKS = {
         rule=("whole core against the simulated world; rapid-generated workflows (1-5 tasks on 1-3 hosts, mixed criticality, optionally nested in "
               "aggregators), live state CONFIGURED or RUNNING, a victim task, a failure kind (TASK_FAILED, TASK_LOST, TASK_KILLED, TASK_FINISHED, "
               "executor FAILURE, agent FAILURE, TASK_INTERNAL_ERROR device event) and an instant (idle, while a START/STOP is parked on a gated "
-              "reply of another task, right after a transition returned); plus the full kind x state x criticality matrix as fixed cases. "
+              "reply of another task, right after a transition returned, or 'burst': together with the held replies of all other tasks to an "
+              "in-flight START/STOP), optionally after the master connection was dropped and re-established (reconciliation answers with or "
+              "without the fields only executors fill in); plus the full kind x state x criticality matrix, the after-reconnection cases and "
+              "a repeated six-task burst as fixed cases. "
               "Oracle: any affected critical task => ERROR within 15 s, stays ERROR, never RUNNING again, end of run recorded "
-              "(run_end_time_ms and a run event); only non-critical tasks affected => state unchanged after 1.5 s. Every case is non-trivial; "
-              "distinct = distinct (shape, state, victim criticality, kind, instant) digests."),
+              "(run_end_time_ms and a run event); only non-critical tasks affected => state unchanged after 1.5 s. Every whole-core case is "
+              "non-trivial; distinct = distinct (shape, state, victim criticality, kind, instant) digests. In process (TestNotifyInProcess, hook H2): "
+              "role trees of 2-7 task leaves in up to two aggregator levels and 2-14 state updates; the environment-side subscription is a "
+              "one-slot mailbox that the harness empties before an update (watcher ready) or leaves full (watcher busy, the notification is "
+              "dropped by the non-blocking send); oracle: once a critical task is in ERROR and a critical task reports while the mailbox is "
+              "empty, the watcher has been told ERROR; never told ERROR without a critical ERROR. Non-trivial there: a notification arrived "
+              "while the watcher was busy and a critical ERROR had to be announced."),
         assumptions=["'bounded time' is taken as 15 s (the mechanism's own delay is 0.5 s)",
                      "executor/agent failures affect every task sharing that executor/agent, as in Mesos"],
-        quick=[R("^(TestFixedMatrix|TestCanary.*)$", 1, 1, 900), R("^TestFaults$", 9, 10, 900, shrinktime="90s")],
-        thorough=[R("^(TestFixedMatrix|TestCanary.*)$", 1, 1, 900), R("^TestFaults$", 150, 15, 3400, shrinktime="180s")],
+        quick=[R("^(TestFixedMatrix|TestCanary.*)$", 1, 1, 900), R("^TestFixedReconnectAndBurst$", 1, 1, 900), R("^TestFaults$", 9, 10, 900, shrinktime="90s"),
+               R("^TestNotifyFixed$", 1, 1, 120), R("^TestNotifyInProcess$", 10000, 2, 300)],
+        thorough=[R("^(TestFixedMatrix|TestCanary.*)$", 1, 1, 900), R("^TestFixedReconnectAndBurst$", 1, 2, 3400), R("^TestFaults$", 150, 15, 3400, shrinktime="180s"),
+                  R("^TestNotifyFixed$", 1, 1, 120), R("^TestNotifyInProcess$", 200000, 4, 1500)],
     ),
     "C04": dict(
         pkg="./props/c04", bins=["./cmd/simcore"], level="exploration",
